@@ -354,6 +354,22 @@ theorem src_resolve {p : Pair} {x : Side} {nm : Bytes} {r : Pair × Py Out}
   repeat' split at h
   all_goals first | (cases h; done) | (cases h; exact s1)
 
+theorem src_resolveMany {p : Pair} {x : Side} {nms : List Bytes} {r : Pair × Py Out}
+    (h : apiResolveMany p x nms = .ok r) : PSrc p r.1 := by
+  unfold apiResolveMany at h
+  simp only at h
+  split at h
+  · cases h
+  · simp only [Py.bind_eq_ok] at h
+    obtain ⟨p1, hpump, h⟩ := h
+    have s1 : PSrc p p1 := by
+      split at hpump
+      · cases hpump; exact .refl _
+      · exact (psrc_set _ _ _ (srcStep_sockless _ _ (by rfl))).trans (pump_src _ hpump)
+    split at h
+    · cases h; exact s1
+    · cases h
+
 theorem sockClose_src {p p' : Pair} {x : Side} {id : Nat} (h : sockClose p x id = .ok p') : PSrc p p' := by
   unfold sockClose at h
   simp only at h
@@ -417,6 +433,8 @@ theorem applyOp_src {p : Pair} {op : Op} {r : Pair × Py Out} (h : applyOp p op 
     obtain ⟨r1, hx, h⟩ := h
     cases h
     exact xfer_src (p' := r1.1) (m := r1.2) hx
+  | resolveMany x nms => exact src_resolveMany h
+  | sendsnl x id rq rs => exact src_sendpdu h
 
 /-- in every reachable state every UI PDU queued at a logical-data-link socket carries
 the address that socket is bound to as its source -/
